@@ -24,7 +24,7 @@ PAYLOAD_ERRORS = {'WrongType', 'RangeError'}
 
 def build_node(env, symbolic=('pf', 'pi', 'pk')):
     from frappy.core import Module, Parameter, Command, FloatRange, IntRange, EnumType, StructOf, ArrayOf, StringType, \
-        TupleOf, BoolType
+        TupleOf, BoolType, ScaledInteger, BLOBType
     from frappy.params import Limit
     from frappy.errors import RangeError
     # limits are symbolic for the parameter the request sequence addresses, concrete otherwise
@@ -53,6 +53,9 @@ def build_node(env, symbolic=('pf', 'pi', 'pk')):
         ps2 = Parameter('struct without optional members', StructOf(x=FloatRange(-10, 10), n=IntRange(0, 5), optional=[]),
                         readonly=False, default={'x': 0, 'n': 0})
         pa = Parameter('array', ArrayOf(IntRange(0, 9), 0, 3), readonly=False, default=[])
+        psc = Parameter('scaled', ScaledInteger(0.1, 0, 10), readonly=False, default=1.0)
+        pbl = Parameter('blob', BLOBType(0, 4), readonly=False, default=b'')
+        ptu = Parameter('tuple', TupleOf(IntRange(0, 5), StringType(0, 3)), readonly=False, default=(0, ''))
         ro = Parameter('readonly', FloatRange(), default=1.5)
         pc = Parameter('constant', FloatRange(), constant=2.5)
         hidden = Parameter('unexported', FloatRange(), readonly=False, default=0, export=False)
@@ -103,7 +106,7 @@ def build_node(env, symbolic=('pf', 'pi', 'pk')):
             """unexported"""
             log.append(('hiddencmd',))
 
-    for pname in ('pf', 'pi', 'pbig', 'pe', 'pb', 'pstr', 'ps', 'ps2', 'pa', 'hidden', 'cust', 'target', 'target_min', 'target_max',
+    for pname in ('psc', 'pbl', 'ptu', 'pf', 'pi', 'pbig', 'pe', 'pb', 'pstr', 'ps', 'ps2', 'pa', 'hidden', 'cust', 'target', 'target_min', 'target_max',
                   'x', 'x_limits', 'pk', 'ro', 'pc'):
         def w(self, value, pname=pname):
             log.append((pname, value))
@@ -159,6 +162,17 @@ REQS = {
     'pa-ok': ('change', 'm:_pa', ['list', ['int', 'int']], 'driver:pa'),
     'pa-long': ('change', 'm:_pa', ['list', ['int', 'int', 'int', 'int']], PAYLOAD_ERRORS),
     'pa-str': ('change', 'm:_pa', 'strab', PAYLOAD_ERRORS),
+    'psc-int': ('change', 'm:_psc', 'int', 'driver:psc'),
+    'psc-float': ('change', 'm:_psc', 'float', 'driver:psc'),
+    'psc-str': ('change', 'm:_psc', 'str12', PAYLOAD_ERRORS),
+    'pbl-ok': ('change', 'm:_pbl', "lit:'YWI='", 'driver:pbl'),
+    'pbl-bad': ('change', 'm:_pbl', "lit:'YW I='", PAYLOAD_ERRORS),
+    'pbl-long': ('change', 'm:_pbl', "lit:'YWJjZGU='", PAYLOAD_ERRORS),
+    'pbl-int': ('change', 'm:_pbl', 'int', PAYLOAD_ERRORS),
+    'ptu-ok': ('change', 'm:_ptu', ['list', ['int', "lit:'ab'"]], 'driver:ptu'),
+    'ptu-short': ('change', 'm:_ptu', ['list', ['int']], PAYLOAD_ERRORS),
+    'ptu-long': ('change', 'm:_ptu', ['list', ['int', "lit:'ab'", 'int']], PAYLOAD_ERRORS),
+    'ptu-str': ('change', 'm:_ptu', 'strab', PAYLOAD_ERRORS),
     'ro': ('change', 'm:_ro', 'float', {'ReadOnly'}),
     'const': ('change', 'm:_pc', 'float', {'ReadOnly'}),
     'hidden-attr': ('change', 'm:hidden', 'float', {'NoSuchParameter'}),
@@ -237,7 +251,7 @@ def run_requests(env, p):
     cands = []
     for i, name in enumerate(seq):
         action, specifier, pdesc, _ = REQS[name]
-        cand = M.make(env, pdesc, f'r{i}', box={'f': 2000, 'i': 2000})
+        cand = M.make(env, pdesc, f'r{i}', box={'f': 200, 'i': 200} if 'psc' in name else {'f': 2000, 'i': 2000})
         cands.append(cand)
         reqs.append((action, specifier, cand.value))
     states = []
@@ -307,6 +321,20 @@ def judge_value(env, K, name, target, cand, entry, before, after, mod, spec):
             env.check(M.And(xl[0] <= v, v <= xl[1]), K + '/dynamic-limit-bypassed')
         if target in after:
             env.check(M.eq(after[target][0], v), K + '/cache-differs-from-written')
+        return
+    if target == 'psc':
+        v = entry[1]
+        x = cand.value
+        env.check(M.integral(x), K + '/fraction-accepted-for-scaled')
+        env.check(M.And(0 <= v, v <= 10, v == x * 0.1), K + '/driver-got-other-value')
+        return
+    if target == 'pbl':
+        env.check(entry[1] == b'ab', K + '/driver-got-other-value', repr(entry[1]))
+        return
+    if target == 'ptu':
+        v = entry[1]
+        env.check(isinstance(v, tuple) and len(v) == 2 and v[1] == 'ab', K + '/driver-got-other-value')
+        env.check(M.And(0 <= v[0], v[0] <= 5, v[0] == cand.parts[0].value), K + '/out-of-datainfo-value-reached-driver')
         return
     if target == 'pbig':
         env.check(entry[1] == cand.value and M.pytype(entry[1]) is int, K + '/driver-got-other-value', [entry[1], cand.value])
